@@ -48,15 +48,20 @@ class Coder:
 def run_impl_dedup(rows, chunks):
     """rows: list of 5-tuples of float32. Returns observables (bit patterns)."""
     from femto.laserpath import LaserPath
-    lp = LaserPath()
     arr = np.array(rows, dtype=np.float32).reshape(-1, 5)
-    # feed through add_path in chunks (the single store point)
-    start = 0
-    for c in chunks:
-        part = arr[start:start + c]
-        start += c
-        if len(part):
-            lp.add_path(part[:, 0], part[:, 1], part[:, 2], part[:, 3], part[:, 4])
+    clean = bool(np.all(np.isfinite(arr)) and np.all(arr[:, 3] > 0)) if len(arr) else True
+    if clean:
+        # feed through add_path in chunks (the single store point)
+        lp = LaserPath()
+        start = 0
+        for c in chunks:
+            part = arr[start:start + c]
+            start += c
+            if len(part):
+                lp.add_path(part[:, 0], part[:, 1], part[:, 2], part[:, 3], part[:, 4])
+    else:
+        # add_path refuses non-finite values and non-positive feeds (C10): arbitrary float32 trajectories are recorded directly
+        lp = LaserPath(_x=arr[:, 0].copy(), _y=arr[:, 1].copy(), _z=arr[:, 2].copy(), _f=arr[:, 3].copy(), _s=arr[:, 4].copy())
     with np.errstate(all='ignore'):
         pts = lp.points
         o_points = [] if pts.ndim != 2 else [[bits(v) for v in r] for r in pts.T]
